@@ -165,6 +165,7 @@ class Program:
         self.impls = []
         self.traits = {}
         self.unsafe_blocks = []
+        self.fmts = []  # format_args! sites read off the expanded AST: file, line, pieces (literals / placeholders with fill, align, width)
         self._autos_raw = []
         self._autos = None
         self.crates = []
@@ -196,6 +197,9 @@ class Program:
             for u in d["unsafe_blocks"]:
                 u["crate"] = cname
                 self.unsafe_blocks.append(u)
+            for x in d.get("fmts", []):
+                x["crate"] = cname
+                self.fmts.append(x)
             for r in d["fns"]:
                 fn = Fn()
                 fn.raw = r
@@ -634,6 +638,10 @@ class Program:
             seen.add(x)
             work.extend(g[x] - seen)
         return seen
+
+    def fmts_in(self, fn):
+        """format_args! sites lexically inside fn (closures included)."""
+        return [x for x in self.fmts if x["crate"] == fn.crate and x["file"] == fn.file and fn.line <= x["line"] <= fn.end_line]
 
     def where(self, fn, line=None):
         return "%s:%s" % (fn.file, line if line is not None else fn.line)
